@@ -97,6 +97,8 @@ func (c *Ctx) RunC16(tier string) {
 		}
 		for _, M := range []uint64{80, 8000, 8192} {
 			vals := fieldValues(M)
+			// values at which the printed width changes, positive and negative
+			wide := []uint64{9, 10, 99 % M, 100 % M, 999 % M, 1000 % M, M - 9, M - 10, (M - 99%M) % M, (M - 100%M) % M, (M - 999%M) % M, (M - 1000%M) % M}
 			for _, f := range forms {
 				if !c.mine() || c.expired() {
 					continue
@@ -105,6 +107,13 @@ func (c *Ctx) RunC16(tier string) {
 					for _, b := range vals {
 						c.check16([]g.Instruction{hx.Mk(f, a, b)}, 0, M, legacy)
 					}
+					for _, b := range wide {
+						c.check16([]g.Instruction{hx.Mk(f, a, b)}, 0, M, legacy)
+						c.check16([]g.Instruction{hx.Mk(f, b, a)}, 0, M, legacy)
+					}
+				}
+				for i, a := range wide {
+					c.check16([]g.Instruction{hx.Mk(f, a, wide[(i+5)%len(wide)])}, 0, M, legacy)
 				}
 			}
 			al := alphabet12(legacy, M)
@@ -145,7 +154,7 @@ func (c *Ctx) RunC16(tier string) {
 			}
 		}
 	}
-	rep.Bound = fmt.Sprintf("per dialect (ICWS88, ICWS94, and NOP94 for half of the '94 warriors): every legal instruction form x every field pair for M in %v; boundary fields {0,1,M/2,M/2+1,M-1} for M in {80,8000,8192}; all 2- and 3-instruction warriors over a 12-form alphabet with every entry point; warriors of 12 and 120 instructions under M in {8000, 100003, 1000003}", small)
+	rep.Bound = fmt.Sprintf("per dialect (ICWS88, ICWS94, and NOP94 for half of the '94 warriors): every legal instruction form x every field pair for M in %v; boundary fields {0,1,M/2,M/2+1,M-1} for M in {80,8000,8192}, each also paired with the values at which the printed width changes (+-9, +-10, +-99, +-100, +-999, +-1000); all 2- and 3-instruction warriors over a 12-form alphabet with every entry point; warriors of 12 and 120 instructions under M in {8000, 100003, 1000003}", small)
 	sim, _ := g.NewSimulator(cfgOf(8000, false))
 	w, _ := sim.AddWarrior(&g.WarriorData{Code: alphabet12(false, 8000)[1:4], Start: 1})
 	rep.Sample(w.LoadCode())
